@@ -42,6 +42,9 @@ CHECKS = {
  "C12": ("exploration", "exhaustive ordered page contents over per-type alphabets vs reference page decode",
    "Every ordered page content up to length m over each type's alphabet with nulls interleaved, for all 24 column kinds and nested contexts: null_count exact, min/max (when present) bound every value in the type's order.",
    "Absent min/max accepted.", "4/C12"),
+ "C14": ("exploration", "exhaustive program enumeration of decorations of base struct definitions, byte-for-byte differential against the base",
+   "Every insertion of an excluded field (every position, every struct, a menu of Go types and names) and every replacement of a run of fields by an embedded struct is generated, compiled and run next to its base definition; files must be byte-identical for every enumerated value and excluded fields must scan back as zero.",
+   "One decoration per program; base definitions are asserted to pass the C05 oracles first.", "4/C14"),
  "C16": ("exploration", "bounded exhaustive file enumeration vs independent parser, field-by-field",
    "ReadMetaData, PageHeaders and PageHeadersAtOffset (every chunk start and every page start) are compared field by field with the reference parser's footer tree and sequential walk over the exhaustive file families.",
    "Library-written files only.", "4/C16"),
